@@ -654,6 +654,41 @@ def render : List (Line × Str) → Line → Str
   | [], last => last.text
   | (l, e) :: ls, last => l.text ++ e ++ render ls last
 
+/-- the loop of `process_commandline` records first appearances, in order -/
+theorem ipPref_fold (flags acc : List Nat) (hf : FlagsOK flags) :
+    flags.foldl ipPrefStep acc = acc ++ (requestedOrder flags).filter (fun x => !acc.contains x) := by
+  induction flags generalizing acc with
+  | nil => simp [requestedOrder]
+  | cons f r ih =>
+    have hr : FlagsOK r := fun x hx => hf x (by simp [hx])
+    have hf4 := hf f (by simp)
+    simp only [List.foldl_cons, requestedOrder]
+    by_cases hin : f ∈ acc
+    · have hstep : ipPrefStep acc f = acc := by
+        rcases hf4 with e | e <;> subst e <;> simp [ipPrefStep, hin]
+      rw [hstep, ih acc hr]
+      have hc : (!acc.contains f) = false := by simp [hin]
+      rw [List.filter_cons, hc]
+      simp only [Bool.false_eq_true, if_false, List.filter_filter]
+      congr 1
+      apply List.filter_congr
+      intro x _
+      by_cases hx : x = f
+      · subst hx; simp [hin]
+      · simp [hx]
+    · have hstep : ipPrefStep acc f = acc ++ [f] := by
+        rcases hf4 with e | e <;> subst e <;> simp [ipPrefStep, hin]
+      rw [hstep, ih (acc ++ [f]) hr]
+      have hc : (!acc.contains f) = true := by simp [hin]
+      rw [List.filter_cons, hc]
+      simp only [if_true, List.filter_filter, List.append_assoc, List.singleton_append]
+      congr 2
+      apply List.filter_congr
+      intro x _
+      by_cases hx : x = f
+      · subst hx; simp
+      · simp [hx]
+
 /-! ### the characters of an IPv6 literal -/
 
 theorem mem_splitOn_cover (sep : Char) (s : Str) (c : Char) (hc : c ∈ s) : c = sep ∨ ∃ p ∈ splitOn sep s, c ∈ p := by
